@@ -18,7 +18,7 @@ class Ctx:
 
     def __init__(s, opts=None):
         o = opts or {}
-        s.unwind = o.get('unwind', 80)
+        s.unwind = o.get('unwind', 1100)
         s.vc_timeout = o.get('vc_timeout', 120) * 1000
         s.feas_timeout = o.get('feas_timeout', 10) * 1000
         s.max_instrs = o.get('max_instrs', 30_000_000)
